@@ -333,9 +333,16 @@ class Evaluator(abc.ABC):
         job.metadata["timestamp_gather"] = time.time() - self.timestamp
 
         if isinstance(job, HPOJob):
-            if np.isscalar(job.objective):
-                if np.isreal(job.objective) and not (np.isfinite(job.objective)):
-                    job.output["objective"] = Evaluator.FAIL_RETURN_VALUE
+            # A non-finite value, alone or as one of several objectives, marks the evaluation as failed
+            if isinstance(job.objective, (tuple, list)):
+                objectives = job.objective
+            else:
+                objectives = [job.objective]
+            if any(
+                np.isscalar(obj) and np.isreal(obj) and not (np.isfinite(obj))
+                for obj in objectives
+            ):
+                job.output["objective"] = Evaluator.FAIL_RETURN_VALUE
 
             # store data in storage
             self._storage.store_job_out(job.id, job.objective)
